@@ -52,7 +52,10 @@ def run(ctx, chk):
     ip = Interp(repo, ctx.types, param_types={SP: "Scenario"})
     s = ip.run(fi)
     cn = Canon(ip, ctx.layout, names={("param", SP): "scenario"})
-    ok_ret = len(s.returns) == 1 and s.returns[0][1][0] == "listobj"
+    # (several exits handing out the same list object - e.g. an early return for an empty
+    # address space - are one list)
+    ok_ret = len(s.returns) >= 1 and s.returns[0][1][0] == "listobj" and \
+        all(t == s.returns[0][1] for _, t in s.returns)
     chk.ob("C11.enumeration", "load_action_list returns one locally built list", ok_ret,
            str([cn.show(t) for _, t in s.returns]), fi.module.path, nontrivial=False)
     # the produced sequence, whatever way it is written (append / extend / comprehension / helper
@@ -78,6 +81,9 @@ def run(ctx, chk):
         for obj, iters, conds in gens:
             cls = obj[1] if obj[0] == "new" else cn.show(obj)
             conds = [c for c in conds if c[0] not in ("inloop", "fact")]
+            # "the iterated collection is not empty" holds in every iteration over it
+            conds = [c for c in conds
+                     if f_show(cn.formula(c)) not in {f"0<len({it_})" for it_ in iters}]
             ev = locs.get(obj)
             per_addr.setdefault(cls, []).append((iters, conds, obj, ev if ev is not None
                                                  else s.events[0]))
@@ -207,13 +213,44 @@ def check_maps(ctx, chk):
             # the inner map is the outer map's entry for the definition's own service / process:
             # outer[key] or outer.setdefault(key, {})
             bt = ev.data["base"]
-            okey = None
-            if bt[0] == "sub":
-                okey = cn.show(bt[2])
-            elif bt[0] == "mcall" and bt[2] in ("setdefault", "get") and bt[3]:
-                okey = cn.show(bt[3][0])
-            ok = got == want and idx == f"{DV}['os']" and okey == f"{DV}['{key1}']"
+
+            def outer_keys(t, depth=0):
+                """the key(s) of the outer map under which the inner map `t` sits, over every
+                alternative of a conditional value; None when some alternative is not decoded"""
+                if depth > 6:
+                    return None
+                if t[0] == "sub":
+                    return {cn.show(t[2])}
+                if t[0] == "mcall" and t[2] in ("setdefault", "get") and t[3]:
+                    return {cn.show(t[3][0])}
+                if t[0] == "const" and t[1] is None:
+                    return set()             # the alternative the `is None` test replaces
+                if t[0] == "dictobj":
+                    # a fresh inner map: where was it put?
+                    puts = [e2 for e2 in s.events if e2.kind == "store"
+                            and e2.data["target"] == "sub" and e2.data["value"] == t]
+                    return {cn.show(e2.data["idx"]) for e2 in puts} if puts else None
+                if t[0] == "phi":
+                    a_, b_ = outer_keys(t[2], depth + 1), outer_keys(t[3], depth + 1)
+                    return None if a_ is None or b_ is None else a_ | b_
+                if t[0] == "cases":
+                    out = set()
+                    for _, x in t[1]:
+                        k_ = outer_keys(x, depth + 1)
+                        if k_ is None:
+                            return None
+                        out |= k_
+                    return out
+                return None
+            okeys = outer_keys(bt)
+            ok = got == want and idx == f"{DV}['os']" and okeys == {f"{DV}['{key1}']"}
             detail = f"stored under [{base[-60:]}][{idx}] fields {got} when {f_show(cond)[:200]}"
+            if okeys is None and got == want and idx == f"{DV}['os']":
+                chk.undecided("C11.definition", f"Scenario.{prop}: every field copied from the "
+                              f"definition, indexed by the definition's own ({key1}, os)",
+                              "how the inner map is obtained from the outer one is not decoded: "
+                              + detail, fi.module.path)
+                continue
         chk.ob("C11.definition", f"Scenario.{prop}: every field copied from the definition, indexed "
                f"by the definition's own ({key1}, os)", ok, detail, fi.module.path)
 
